@@ -150,7 +150,9 @@ impl HdlcDeframer {
                 // We can't move from `bits`, since it's only borrowed,
                 // but we can swap its contents.
                 std::mem::swap(&mut bits, inbits);
-                if bits.len() > self.max_size * 8 {
+                // Up to seven bits of the closing flag are collected on top of
+                // the frame itself before the flag is recognized.
+                if bits.len() > self.max_size * 8 + 7 {
                     return Ok(State::Unsynced(0xff));
                 }
                 if bit > 0 {
@@ -191,6 +193,8 @@ impl HdlcDeframer {
                         bits.len(),
                         bits
                     );
+                } else if bits.len() / 8 > self.max_size {
+                    trace!("Packet too long: {} > {}", bits.len() / 8, self.max_size);
                 } else if bits.len() / 8 < self.min_size || (self.strip_checksum && bits.len() < 16) {
                     // A frame shorter than its own checksum can't be checked.
                     trace!("Packet too short: {} < {}", bits.len() / 8, self.min_size);
